@@ -178,6 +178,40 @@ fn run_replay(args: &[String]) -> i32 {
 // ---------------------------------------------------------------------------------------------
 // parent
 
+/// number of distinct u64 values in the union of sorted little-endian files
+fn union_count(files: &[String]) -> u64 {
+    use std::cmp::Reverse;
+    use std::collections::BinaryHeap;
+    use std::io::Read;
+    let mut readers: Vec<std::io::BufReader<std::fs::File>> = files
+        .iter()
+        .filter_map(|f| std::fs::File::open(f).ok())
+        .map(|f| std::io::BufReader::with_capacity(1 << 20, f))
+        .collect();
+    let mut next = |r: &mut std::io::BufReader<std::fs::File>| -> Option<u64> {
+        let mut b = [0u8; 8];
+        r.read_exact(&mut b).ok().map(|_| u64::from_le_bytes(b))
+    };
+    let mut heap: BinaryHeap<Reverse<(u64, usize)>> = BinaryHeap::new();
+    for i in 0..readers.len() {
+        if let Some(v) = next(&mut readers[i]) {
+            heap.push(Reverse((v, i)));
+        }
+    }
+    let mut count = 0u64;
+    let mut last: Option<u64> = None;
+    while let Some(Reverse((v, i))) = heap.pop() {
+        if last != Some(v) {
+            count += 1;
+            last = Some(v);
+        }
+        if let Some(n) = next(&mut readers[i]) {
+            heap.push(Reverse((n, i)));
+        }
+    }
+    count
+}
+
 struct ShardRes {
     json: Option<Value>,
     status: String,
@@ -268,6 +302,7 @@ fn run_parent(args: &[String]) -> i32 {
         children.push((s, out, child));
     }
     let mut results: Vec<ShardRes> = Vec::new();
+    let mut hash_files: Vec<String> = Vec::new();
     let mut extra_violations: Vec<Value> = Vec::new();
     let mut inconclusive: Vec<String> = Vec::new();
     for (s, out, mut child) in children {
@@ -309,12 +344,7 @@ fn run_parent(args: &[String]) -> i32 {
                 res.json = std::fs::read_to_string(&out)
                     .ok()
                     .and_then(|t| serde_json::from_str(&t).ok());
-                if let Ok(b) = std::fs::read(format!("{}.hashes", out.to_str().unwrap())) {
-                    res.hashes = b
-                        .chunks_exact(8)
-                        .map(|c| u64::from_le_bytes(c.try_into().unwrap()))
-                        .collect();
-                }
+                hash_files.push(format!("{}.hashes", out.to_str().unwrap()));
                 if res.json.is_none() {
                     inconclusive.push(format!("shard {} produced no summary", s));
                 }
@@ -411,13 +441,10 @@ fn run_parent(args: &[String]) -> i32 {
     let mut maxima: BTreeMap<String, f64> = BTreeMap::new();
     let mut samples: Vec<Value> = Vec::new();
     let mut notes: Vec<String> = Vec::new();
-    let mut all_hashes: HashSet<u64> = HashSet::new();
+    let all_hashes: HashSet<u64> = HashSet::new();
     let mut viols: Vec<Value> = extra_violations;
     let mut foreign_panics: Vec<Value> = Vec::new();
     for r in &results {
-        for h in &r.hashes {
-            all_hashes.insert(*h);
-        }
         let Some(j) = &r.json else { continue };
         evals += j["evals"].as_u64().unwrap_or(0);
         if let Some(c) = j["counters"].as_object() {
@@ -484,7 +511,8 @@ fn run_parent(args: &[String]) -> i32 {
     }
 
     let meta = (p.meta)();
-    let distinct = all_hashes.len() as u64;
+    // exact size of the union of the shards' (sorted) hash files, by a streaming k-way merge
+    let distinct = all_hashes.len() as u64 + union_count(&hash_files);
     if distinct < meta.min_distinct && inconclusive.is_empty() {
         inconclusive.push(format!(
             "only {} distinct non-trivial cases were observed (minimum for a verdict: {})",
